@@ -45,7 +45,7 @@ def main():
     bad = 0
     with ThreadPoolExecutor(j) as ex:
         for sid, prop, caught, ok, outs, err in ex.map(one, ids):
-            print(f"{sid:8s} {prop} {'out-of-domain(other checks catch it)' if caught == 'out-of-domain' else 'caught' if caught else 'MISSED'} {'confirmed' if ok else 'NOT-CONFIRMED ' + str(err)} {outs}")
+            print(f"{sid:8s} {prop} {'expected-miss(recorded reason)' if caught == 'out-of-domain' else 'caught' if caught else 'MISSED'} {'confirmed' if ok else 'NOT-CONFIRMED ' + str(err)} {outs}")
             if not caught or not ok:
                 bad += 1
     print('seeded defects:', len(ids), 'problems:', bad)
